@@ -292,7 +292,7 @@ impl<'c, 'w> StreamDrv<'c, 'w> {
                             let have = self.delivered.get(&s).map_or(0, Vec::len) + self.p.stream_buffer().len();
                             vensure!(have == c.len(), "stream-end-early", "stream {s}: end-of-stream reported after {have} of {} bytes", c.len());
                             match t.end_header_fed_at.get(&s) {
-                                Some(&at) => vensure!(self.pos >= at, "stream-end-early", "stream {s}: end-of-stream reported after feeding {} bytes, but its terminating header only completes at {at}", self.pos),
+                                Some(&at) => vensure!(self.pos >= at, "stream-end-early", "stream {s}: end-of-stream reported after feeding {} bytes, but the record that ends it is only identifiable after {at}", self.pos),
                                 None => vfail!("stream-end-early", "stream {s}: end-of-stream reported but the traffic never ends that stream"),
                             }
                             self.end_reported.insert(s, true);
